@@ -395,27 +395,29 @@ def _sys(pid, extra_domains, level_text, explanation, extra_assume=()):
         "trusted_base": _SYS_TRUSTED,
     }
 
-PROPS["C02"] = _sys("C02", ["policy"],
+PROPS["C02"] = _sys("C02", ["policy", "mgr"],
     "Theorems: the CanApply/CanPrune matrix (all owners, all policies); a delete request is sent by the prune step only if every guard of the "
     "filter chain holds (UID present, no deletion-prevention annotation, policy accepts the owner, namespace not in use, every dependent deleted "
     "and reconciled, not the UID of an object just applied, not dry-run) and then names the object with the planning-time UID as precondition and "
     "the configured propagation policy; the only other request is the annotation removal for a prevention-annotated object; such an object is "
     "abandoned and loses the annotation, any other spared object is recorded as skipped (hence retained, C03); an existing object is handed to "
     "kubectl only if the policy accepts its owner. Tie: exhaustive grid through the real policy functions and stateless filters (domain policy), "
+    "the real inventory Manager whose AppliedResourceUIDs feeds the just-applied filter (domain mgr, shared with C19), "
     "whole runs with a recording API server that sees Delete options (domain sys-C02).",
     "Spec predicates on the implementation: every observed DELETE is authorised (in previous inventory, not in apply set, policy, annotations, "
     "namespace, UID precondition = planning-time UID, propagation), every apply over an existing object satisfies CanApply, spared objects are "
     "abandoned / retained as stated.")
-PROPS["C04"] = _sys("C04", ["depfilter"],
+PROPS["C04"] = _sys("C04", ["depfilter", "wait", "depgraph"],
     "Theorems: the dependency gate passes exactly when EVERY dependency is valid, registered with the same strategy, actuated successfully and "
     "(outside dry-run) recorded as reconciled (iff, for all tables and dependency lists); an object is handed to kubectl only if the gate passed "
     "for all edges of the run's graph; if any dependency blocks (failed/skipped/pending actuation, failed/timed-out/skipped/pending reconcile, "
     "invalid, unregistered, scheduled for deletion) no request is sent, the store is unchanged and exactly one Skipped/Failed event is emitted. "
     "Reconciled means, by C06, last observed Current at a generation >= the applied one. Tie: exhaustive cells through the real DependencyFilter "
-    "(domain depfilter: 2 strategies x 3 dry-run modes x 82 relation states, singles and pairs), whole runs (sys-C04).",
+    "(domain depfilter: 2 strategies x 3 dry-run modes x 82 relation states, singles and pairs), the real WaitTask that records 'reconciled' "
+    "(domain wait, shared with C06), whole runs (sys-C04).",
     "Spec predicate: for every observed apply request, each dependency (explicit, mutation source, namespace) has an earlier Successful apply event "
     "and, outside dry-run, its last wait event before the request is Successful.")
-PROPS["C05"] = _sys("C05", ["depfilter"],
+PROPS["C05"] = _sys("C05", ["depfilter", "depgraph"],
     "Theorems: a delete request is sent only if every dependent (all incoming edges of the run's graph: apply set and stored inventory) has been "
     "deleted successfully and (outside dry-run) recorded as reconciled; a dependent that is still applied, whose delete failed/was skipped/did not "
     "complete, or that is invalid blocks the delete (no request); the reversed layering puts a dependency in a strictly later delete layer than its "
@@ -452,7 +454,7 @@ PROPS["C03"] = _sys("C03", [],
     "Spec predicate: after every run without error event: applied objects live+annotated, completed deletes gone, stored inventory = formula from "
     "the observed events; an identical clean re-apply sends no effective create/delete and leaves the inventory unchanged; destroy leaves nothing managed.",
     ["a create answered AlreadyExists (the idempotent creation of the inventory namespace) is not counted as a create request of a fixpoint run"])
-PROPS["C11"] = _sys("C11", [],
+PROPS["C11"] = _sys("C11", ["depgraph"],
     "Theorems: every invalid id is named in a validation error (invalid_named); no task of any plan — inventory-add, apply, prune, wait — names "
     "an invalid id, so none is ever sent or merged into the inventory (plan_excludes_invalid, merged_ids_valid); under exit-early a run with "
     "validation errors makes no mutating request and emits only the error event (exit_early_no_mutation, for every cluster and run); objects "
